@@ -806,14 +806,6 @@ func parseScheduledStopTimes(csv *csv.File, stops []Stop, trips []ScheduledTrip)
 			ExactTimes:            timepointColumn.ReadOr("1") == "1",
 		}
 		tripID := tripIDColumn.Read()
-		if currentTrip == nil || currentTripID != tripID {
-			thisTrip := idToTrip[tripID]
-			if thisTrip != nil && currentTrip != nil && cap(thisTrip.StopTimes) == 0 {
-				thisTrip.StopTimes = make([]ScheduledStopTime, 0, len(currentTrip.StopTimes))
-			}
-			currentTrip = thisTrip
-			currentTripID = tripID
-		}
 		if missingKeys := csv.MissingRowKeys(); len(missingKeys) > 0 {
 			log.Printf("Skipping stop time because of missing keys %s", missingKeys)
 			continue
@@ -821,8 +813,16 @@ func parseScheduledStopTimes(csv *csv.File, stops []Stop, trips []ScheduledTrip)
 		if stopTime.Stop == nil {
 			continue
 		}
-		if currentTrip == nil {
-			continue
+		if currentTrip == nil || currentTripID != tripID {
+			thisTrip := idToTrip[tripID]
+			if thisTrip == nil {
+				continue
+			}
+			if currentTrip != nil && cap(thisTrip.StopTimes) == 0 {
+				thisTrip.StopTimes = make([]ScheduledStopTime, 0, len(currentTrip.StopTimes))
+			}
+			currentTrip = thisTrip
+			currentTripID = tripID
 		}
 		currentTrip.StopTimes = append(currentTrip.StopTimes, stopTime)
 	}
